@@ -9,15 +9,17 @@ From Coq Require Import NArith List Arith Bool.
 From Dolt Require Import Base.Str Graph.CommitDag C18.Model C18.Corr C44.Model C19.Model C19.Spec.
 Import ListNotations.
 
-(* ((parents lists, rank), ordered pairs), specs (start commit, suffix bytes) *)
-Definition input := (((list (list N) * list N) * list (N * N)) * list (N * bytes))%type.
+(* ((parents lists, rank), ordered pairs), specs ((start commit, base name bytes), suffix bytes);
+   the base name is the branch "b<start>" or the 32-character hash of commit <start>
+   (reported by the harness: it names commit <start> by construction) *)
+Definition input := (((list (list N) * list N) * list (N * N)) * list ((N * bytes) * bytes))%type.
 Definition in_hist (i : input) : hist := map (map N.to_nat) (fst (fst (fst i))).
 Definition in_rank (i : input) : nat -> nat := rank_of (map N.to_nat (snd (fst (fst i)))).
 Definition in_pairs (i : input) : list (nat * nat) :=
   map (fun p => (N.to_nat (fst p), N.to_nat (snd p))) (snd (fst i)).
-Definition in_specs (i : input) : list (N * bytes) := snd i.
+Definition in_specs (i : input) : list ((N * bytes) * bytes) := snd i.
 
-(* merge-base results: 0 = none, k+1 = commit k, >= 2000000 = error *)
+(* merge-base results: 0 = error / model out of fuel, 1 = none, k+2 = commit k *)
 Record obs := {
   o_mb    : list N;          (* datas.FindCommonAncestor *)
   o_mbp   : list N;          (* findCommonAncestorUsingParentsList *)
@@ -29,38 +31,30 @@ Definition case := (input * obs)%type.
 
 Definition enc_mb (r : option (option nat)) : N :=
   match r with
-  | None => 2000000%N
-  | Some None => 0%N
-  | Some (Some c) => N.of_nat (S c)
+  | None => 0%N
+  | Some None => 1%N
+  | Some (Some c) => N.of_nat (c + 2)
   end.
 
 Definition enc_ff (r : ff_result) : N :=
   match r with
-  | FF_ok => 0 | FF_uptodate => 1 | FF_ahead => 2 | FF_diverged => 3 | FF_noancestor => 4 | FF_fuel => 2000000
+  | FF_ok => 0 | FF_uptodate => 1 | FF_ahead => 2 | FF_diverged => 3 | FF_noancestor => 4 | FF_fuel => 9
   end%N.
 
-Fixpoint dec_fuel (f : nat) (n : N) (acc : bytes) : bytes :=
-  match f with
-  | O => acc
-  | S f' => let acc' := (48 + N.modulo n 10)%N :: acc in
-            if (n <? 10)%N then acc' else dec_fuel f' (N.div n 10) acc'
-  end.
-Definition branch_name (start : N) : bytes := 98%N :: dec_fuel 20 start [].    (* "b<start>" *)
-
-Definition resolve_model (s : store) (start : N) (suffix : bytes) : N * N :=
-  let name := branch_name start in
+Definition resolve_model (s : store) (sb : N * bytes) (suffix : bytes) : N * N :=
+  let name := snd sb in
   match new_commit_spec (name ++ suffix) with
   | SErr => (1, 0)%N
   | SOk (ty, base, rle) =>
     match ty with
-    | CsRef =>
+    | CsHead => (3, 0)%N
+    | _ =>
       if beq_bytes base name then
-        match walk s (N.to_nat start) (expand_rle rle) with
+        match walk s (N.to_nat (fst sb)) (expand_rle rle) with
         | Some d => (0%N, N.of_nat d)
         | None => (2, 0)%N
         end
       else (3, 0)%N
-    | _ => (3, 0)%N
     end
   end.
 
@@ -80,8 +74,8 @@ Definition obs_eqb (a b : obs) : bool :=
 
 (* ---- the property on what the implementation returned ---- *)
 Definition dec_mb (r : N) : option (option nat) :=
-  if (r =? 0)%N then Some None
-  else if (r <? 2000000)%N then Some (Some (N.to_nat r - 1)) else None.
+  if (r =? 0)%N then None
+  else if (r =? 1)%N then Some None else Some (Some (N.to_nat r - 2)).
 
 (* result is a common ancestor-or-self none is higher than / none exists *)
 Definition mb_list_okb (n : nat) (tbl : list (list nat)) (htbl : list nat) (pairs : list (nat * nat)) (res : list N) : bool :=
@@ -105,7 +99,8 @@ Definition ff_okb (n : nat) (tbl : list (list nat)) (pairs : list (nat * nat)) (
 (* "<name>~n^k…" selects the commit reached by the corresponding parent walk
    from the commit the name resolves to; error exactly when the walk leaves the graph
    (or the suffix is not an ancestor spec) *)
-Definition spec_expected (h : hist) (start : N) (suffix : bytes) : N * N :=
+Definition spec_expected (h : hist) (sb : N * bytes) (suffix : bytes) : N * N :=
+  let start := fst sb in
   match (match suffix with [] => SOk [] | _ => parse_instructions suffix end) with
   | SErr => (1, 0)%N
   | SOk rle => match spec_walk h (N.to_nat start) (expand_rle rle) with
@@ -114,7 +109,7 @@ Definition spec_expected (h : hist) (start : N) (suffix : bytes) : N * N :=
                end
   end.
 
-Definition specs_okb (h : hist) (specs : list (N * bytes)) (res : list (N * N)) : bool :=
+Definition specs_okb (h : hist) (specs : list ((N * bytes) * bytes)) (res : list (N * N)) : bool :=
   (length res =? length specs) &&
   forallb (fun sr => keyN_eqb (snd sr) (spec_expected h (fst (fst sr)) (snd (fst sr)))) (combine specs res).
 
@@ -128,6 +123,24 @@ Definition oracle (i : input) (o : obs) : bool :=
   && sym_okb ps (o_mb o) && sym_okb ps (o_mbp o) && sym_okb ps (o_mbd o)
   && ff_okb n tbl ps (o_ff o)
   && specs_okb h (in_specs i) (o_specs o).
+
+(* ---- checkable side conditions of the theorem [oracle_accepts_model] ---- *)
+Definition pairs_okb (i : input) : bool :=
+  forallb (fun p => (fst p <? length (in_hist i)) && (snd p <? length (in_hist i))) (in_pairs i).
+
+(* C44's parser splits "<base><suffix>" into the base name and the parsed
+   suffix (C44 proves this shape for every accepted spec; here it is a
+   per-case computation) *)
+Definition spec_split_okb (sb : N * bytes) (suffix : bytes) : bool :=
+  match new_commit_spec (snd sb ++ suffix),
+        (match suffix with [] => SOk [] | _ => parse_instructions suffix end) with
+  | SErr, SErr => true
+  | SOk (CsRef, base, rle), SOk rle' | SOk (CsHash, base, rle), SOk rle' =>
+    beq_bytes base (snd sb) && list_eqb keyN_eqb rle rle'
+  | _, _ => false
+  end.
+Definition specs_split_okb (i : input) : bool :=
+  forallb (fun sp => spec_split_okb (fst sp) (snd sp)) (in_specs i).
 
 Definition check_case (c : case) : N :=
   ((if obs_eqb (model_obs (fst c)) (snd c) then 0 else 1)
